@@ -54,6 +54,7 @@ def run(ctx):
     ]
     ctx.rule("shared/no-inplace-mutation", "no function mutates a class-level / module-level mutable object, a mutable default value or a cached result in place")
     ctx.rule("shared/cached-result-handed-out", "a memoised (lru_cache / cache) function's mutable result is process-lifetime state: no encode / decode / check entry point hands that object to its caller — every caller would receive, and could change, the one object all later calls return")
+    ctx.rule("shared/table-handed-out", "no codec function returns a class-level / module-level mutable object itself or a view of it (e.g. a row of a precomputed numpy table)")
     ctx.rule("self/no-memo-in-read-path", "no serialiser / checker / len / repr method both reads and writes one of its own attributes (a memo on the object that survives changes of the fields it was computed from)")
     ctx.rule("shared/one-shot-iterator", "no class-level / module-level value is a generator expression or another one-shot iterator (map / filter / zip / iter / reversed / enumerate object): the first use would consume it for the rest of the process")
     ctx.rule("time/no-salted-hash", "no codec function calls the builtin hash(): hashes of str / bytes / enum members are salted per interpreter, so a value derived from them differs between processes")
@@ -131,6 +132,53 @@ def _dotted(e):
     return None
 
 
+# objects that carry evolving state of their own: held in process-lifetime storage (a class-/module-level name, or a memo table),
+# every later use depends on what earlier calls fed them
+STATEFUL_MODULES = ("itertools",)
+STATEFUL_CTORS = {"iter", "random.Random", "random.SystemRandom", "zlib.compressobj", "zlib.decompressobj", "io.BytesIO", "io.StringIO", "codecs.iterdecode", "codecs.iterencode",
+                  "hashlib.md5", "hashlib.sha1", "hashlib.sha256", "hashlib.new", "collections.deque"}
+STATEFUL_FACTORIES = {"codecs.getincrementaldecoder", "codecs.getincrementalencoder", "codecs.getreader", "codecs.getwriter"}   # factory(...)(...) is the stateful object
+
+
+def stateful_object(expr, imports=None):
+    """name of the stateful external object the expression creates, or None.  `imports` maps local names to dotted external names"""
+    if not isinstance(expr, ast.Call):
+        return None
+    imports = imports or {}
+
+    def full(f):
+        d = _dotted(f)
+        if d is None:
+            return None
+        head, _, rest = d.partition(".")
+        head = imports.get(head, head)
+        return head + ("." + rest if rest else "")
+    if isinstance(expr.func, ast.Call):
+        d = full(expr.func.func)
+        return f"{d}(...)() object" if d in STATEFUL_FACTORIES else None
+    d = full(expr.func)
+    if d is None:
+        return None
+    if d in STATEFUL_CTORS or d.split(".")[0] in STATEFUL_MODULES:
+        return f"{d}() object"
+    return None
+
+
+def module_imports(module) -> dict:
+    out = {}
+    tree = getattr(module, "tree", None)
+    if tree is None:
+        return out
+    for n in ast.walk(tree):
+        if isinstance(n, ast.Import):
+            for a in n.names:
+                out[(a.asname or a.name).split(".")[0]] = a.name if a.asname else a.name.split(".")[0]
+        elif isinstance(n, ast.ImportFrom) and n.module and not n.level:
+            for a in n.names:
+                out[a.asname or a.name] = f"{n.module}.{a.name}"
+    return out
+
+
 def memo_exempt(ev, repo=None) -> bool:
     """`TABLE[key] = value` inside a function is a sound memo when the key DETERMINES the value: every input the stored value is
     computed from (backward slice over the function's local definitions, in-place updates and the loops / alternatives that
@@ -150,6 +198,8 @@ def memo_exempt(ev, repo=None) -> bool:
             key_expr, value_expr = c.args
     if key_expr is None:
         return False
+    if stateful_object(value_expr, module_imports(ev.fi.module)):
+        return False      # the table holds a stateful handle (an incremental decoder, a counter ...), not a value
     fn = ev.fi.node
     a = fn.args
     params = {p.arg for p in a.posonlyargs + a.args + a.kwonlyargs} | ({a.vararg.arg} if a.vararg else set()) | ({a.kwarg.arg} if a.kwarg else set())
@@ -498,6 +548,9 @@ def one_shot_rules(ctx, repo, eff):
             return "generator expression"
         if isinstance(expr, ast.Call) and isinstance(expr.func, ast.Name) and expr.func.id in ONE_SHOT_CALLS:
             return f"{expr.func.id}() object"
+        so = stateful_object(expr, module_imports(module) if module is not None else None)
+        if so:
+            return so
         if isinstance(expr, ast.Call) and module is not None and depth < 3:
             # the result of a library function every `return` of which hands out such an object
             callee = None
@@ -569,6 +622,19 @@ def cached_result_rules(ctx, repo, eff):
                     leaks.append(f"{f.qualname} returns it")
         ctx.ob("shared/cached-result-handed-out", gq, not leaks, "; ".join(leaks[:3]) or (f"result kind {gs.ret_kind!r}: " + ("immutable" if not mutable else "stays inside the library (no entry point returns it)")), g.loc)
     ctx.extra["memoised_functions"] = n
+    # the same for class-level / module-level mutable objects (a table of precomputed codewords ...): a codec function whose
+    # result may BE such an object, or a view of it (a numpy row), hands every caller the one object all later calls read
+    inv = inventory(repo, eff)
+    nt = 0
+    for f in eff.funcs:
+        if not in_scope(f.qualname):
+            continue
+        nt += 1
+        fs = eff.summ[f.qualname]
+        hit = sorted(o[1] for o in fs.ret_own if isinstance(o, tuple) and o in inv and not o[1].startswith("cached result of"))
+        if hit and fs.ret_kind != "imm":
+            ctx.ob("shared/table-handed-out", f.qualname, False, f"the result may be (a view of) the process-lifetime object {hit[0]} ({inv[('S', hit[0])][0]}) — a caller that edits it changes what every later call returns", f.loc)
+    ctx.ob("shared/table-handed-out", "all codec functions", True, f"{nt} functions inspected", "")
 
 
 def shared_rules(ctx, repo, eff):
@@ -859,6 +925,12 @@ def positive_controls(ctx):
         got = f is not None and co in peff.summ[f.qualname].ret_own
         ctx.ob("engine/positive-controls", f"probe.py {fn} (cached result {'handed out' if want else 'copied: pure twin'})", f is not None and got == want,
                "as expected" if got == want else "the engine gave the wrong answer for a cached result returned to the caller", "")
+    pinv = inventory(prepo, peff)
+    for fn, want in (("encode_hands_out_row", True), ("encode_copies_row", False)):
+        f = next((x for x in peff.funcs if x.name == fn), None)
+        got = f is not None and any(isinstance(o, tuple) and o in pinv for o in peff.summ[f.qualname].ret_own)
+        ctx.ob("engine/positive-controls", f"probe.py {fn} (class-level table row {'handed out' if want else 'copied: pure twin'})", f is not None and got == want,
+               "as expected" if got == want else "the engine gave the wrong answer for a class-level table row returned to the caller", "")
     for fn, want in (("good_derived", True), ("bad_partial_key", False), ("bad_lossy_key", False), ("good_setdefault", True), ("bad_setdefault", False)):
         evs = [e for e in peff.events.values() if e.fi.name == fn and e.origin[0] == "S"]
         got = bool(evs) and all(memo_exempt(e, prepo) for e in evs)
